@@ -44,3 +44,22 @@ Definition emitted (g : graph) (roots : list nat) : list nat :=
                     | Some n => match nmeta n with Some d => negb (dmeta d) | None => false end
                     | None => false end)
          (visit_nodes g roots).
+
+(* cmdline._find_paths_to_root: every chain of requirer links from a node without requirers down to
+   the failing node, never visiting a requirer twice on one chain *)
+Fixpoint paths_to_root (fuel : nat) (g : graph) (id : nat) (visited : list nat) : list (list nat) :=
+  match fuel with
+  | O => []
+  | S f =>
+      match alookup id (heap g) with
+      | None => []
+      | Some n =>
+          match nrdeps n with
+          | [] => [[id]]
+          | rds => flat_map (fun rd => if nmem rd visited then []
+                                       else map (fun p => p ++ [id]) (paths_to_root f g rd (rd :: visited))) rds
+          end
+      end
+  end.
+Definition find_paths_to_root (g : graph) (id : nat) : list (list nat) :=
+  paths_to_root (S (List.length (heap g))) g id [].
